@@ -59,6 +59,9 @@ inline bool isnan_(int64_t) { return false; }
 template<class T> bool same(T a, T b) { return bits(a) == bits(b) || (isnan_(a) && isnan_(b)); }
 template<class R> bool same(std::complex<R> a, std::complex<R> b) { return same(a.real(), b.real()) && same(a.imag(), b.imag()); }
 inline bool same(bool a, bool b) { return a == b; }
+// arithmetic results: for complex lanes the sign of an exact zero component depends on the (equally valid) formula used
+template<class T> bool sameval(T a, T b) { return same(a, b); }
+template<class R> bool sameval(std::complex<R> a, std::complex<R> b) { return same(a, b) || a == b; }
 
 template<class T> std::string hex(T x) { char buf[40]; std::snprintf(buf, sizeof buf, "%llx", (unsigned long long)bits(x)); return buf; }
 template<class R> std::string hex(std::complex<R> x) { return hex(x.real()) + "+i" + hex(x.imag()); }
@@ -261,7 +264,7 @@ template<class V> struct Chk {
             for (size_t i = 0; i < N; ++i) if (!refbin(o, a[i], b[i], G, want[i], alt[i])) skip = true;
             if (skip) continue;
             V r = f(mk<V>(a), mk<V>(b), a[0], b[0]); un(r, got);
-            for (size_t i = 0; i < N; ++i) { ++R.n; if (!same(got[i], want[i]) && !same(got[i], alt[i])) { R.fail(ctx(a, b, nullptr, got, want, i)); break; } }
+            for (size_t i = 0; i < N; ++i) { ++R.n; if (!sameval(got[i], want[i]) && !sameval(got[i], alt[i])) { R.fail(ctx(a, b, nullptr, got, want, i)); break; } }
         }
         R.end();
     }
@@ -273,7 +276,7 @@ template<class V> struct Chk {
             for (size_t i = 0; i < N; ++i) if (!refter(o, cs.a[i], cs.b[i], cs.c[i], G, want[i], alt[i])) skip = true;
             if (skip) continue;
             V r = f(mk<V>(cs.a), mk<V>(cs.b), mk<V>(cs.c)); un(r, got);
-            for (size_t i = 0; i < N; ++i) { ++R.n; if (!same(got[i], want[i]) && !same(got[i], alt[i])) { R.fail(ctx(cs.a, cs.b, cs.c, got, want, i)); break; } }
+            for (size_t i = 0; i < N; ++i) { ++R.n; if (!sameval(got[i], want[i]) && !sameval(got[i], alt[i])) { R.fail(ctx(cs.a, cs.b, cs.c, got, want, i)); break; } }
         }
         R.end();
     }
